@@ -49,6 +49,8 @@ def chunk_bytes(sizes, base=0):
 
 def worker_for(kind, wk, app):
     kw = {"keepalive": 2 if wk["ka"] else 0}
+    if wk.get("nosendfile"):
+        kw["sendfile"] = False           # --no-sendfile: files are copied through the response writer
     if kind == "gthread" and wk.get("full"):
         kw.update(worker_connections=1, threads=1)
     cfg = drv.make_cfg(**kw)
@@ -265,6 +267,8 @@ def c02(ctx):
               "alive": rng.random() < 0.9}
         status = rng.choice([200, 200, 200, 201, 404, 204, 304, 302, 500])
         prod = rng.choice(["iter", "write", "file", "filenofd"])
+        if prod == "file" and rng.random() < 0.3:
+            wk["nosendfile"] = True
         nch = rng.randint(0, 5)
         sizes = [rng.choice([0, 0, 1, 2, 5, 100, 8192, 8193, 20000]) for _ in range(nch)]
         total = sum(sizes)
@@ -360,12 +364,17 @@ def real_exchanges(ctx, traces, metas):
     # the same over TLS listeners (sendfile is not used there: the file is copied through the TLS layer)
     for wkc in (["gthread"] if ctx.quick else classes):
         progs.append((wkc + "+tls", [x for x in progs[classes.index(wkc)][1] if x[1]["prod"] in ("file", "iter")][:12]))
+    # ... and with --no-sendfile
+    for wkc in (["sync"] if ctx.quick else classes):
+        progs.append((wkc + "+nosendfile", [x for x in progs[classes.index(wkc)][1] if x[1]["prod"] == "file"][:12]))
 
     def one_server(item, i):
         wkc, lst = item
         tls = wkc.endswith("+tls")
+        nosf = wkc.endswith("+nosendfile")
         wkc = wkc.split("+")[0]
-        s = rp.Server(wkc, workers=1, threads=2 if wkc == "gthread" else None, args=["--keep-alive", "2"], name="c02", tls=tls)
+        s = rp.Server(wkc, workers=1, threads=2 if wkc == "gthread" else None,
+                      args=["--keep-alive", "2"] + (["--no-sendfile"] if nosf else []), name="c02", tls=tls)
         out = []
         try:
             s.start()
